@@ -2,10 +2,10 @@ package rules
 
 import (
 	"fmt"
-	"sort"
 	"go/ast"
 	"go/token"
 	"go/types"
+	"sort"
 	"strings"
 
 	"verif/sa/core"
